@@ -53,6 +53,13 @@ def gen_query(rng):
             items.append(k + "=")
         else:
             items.append(k + "=" + seg(rng, ("/", "?", "=", ":", "@")))
+    if rng.random() < 0.12:
+        # the very same item once more (multi-valued parameters repeat)
+        items.insert(rng.randrange(len(items) + 1), rng.choice(items))
+    if len(items) >= 2 and rng.random() < 0.08:
+        # '&amp;' pasted from html for '&' (a key that really starts with 'amp;' for every function but normalize_url)
+        i = rng.randrange(1, len(items))
+        return "?" + "&".join(items[:i]) + rng.choice(["&amp;", "&amp%3B", "&AMP;", "&amp%3b"]) + "&".join(items[i:])
     return "?" + "&".join(items)
 
 
@@ -79,7 +86,10 @@ def gen_host(rng):
         labels.append(rng.choice(H_IRRELEVANT if rng.random() < 0.55 else H_LANG))
     r = rng.random()
     if r < 0.8:
-        labels.append(rng.choice(H_NAME))
+        name = rng.choice(H_NAME)
+        if rng.random() < 0.12:
+            name = rng.choice(H_AMPDASH) + name      # 'amp-' on the label that follows the irrelevant ones
+        labels.append(name)
     h = ".".join(labels + [rng.choice(H_SUFFIX)])
     if rng.random() < 0.2:
         h = rng.choice(H_AMPDASH) + h
@@ -112,6 +122,38 @@ def gen_url(rng):
         extra = "&".join(gen_known_item(rng) for _ in range(rng.choice([1, 1, 2])))
         q = (q + "&" + extra) if len(q) > 1 and rng.random() < 0.6 else "?" + extra
     return (rng.choice(SCHEMES) + rng.choice(USERINFO) + host + rng.choice(PORTS) + gen_path(rng) + q + gen_fragment(rng))
+
+
+REDIRECT_KEYS = ["url", "u", "l", "redirect", "redirect_to", "target", "redir", "next", "link", "orig", "goto", "URL", "Next"]
+
+
+def wrap_redirect(u, rng):
+    """u as the target of a url that obviously redirects to it: every family infer_redirection knows."""
+    bare = u.split("://", 1)[1] if "://" in u else u.lstrip("/")
+    full = u if "://" in u else "http://" + bare
+    r = rng.random()
+    if r < 0.4:
+        return "http://r.com/p?" + rng.choice(["", "a=1&"]) + rng.choice(REDIRECT_KEYS) + "=" + U.quote(full, safe=rng.choice(["", ":/"])) + rng.choice(["", "&z=2", "#f"])
+    if r < 0.5:
+        return "https://www.google.com/url?sa=t&q=" + U.quote(full, safe="") + "&usg=AOv"
+    if r < 0.6:
+        return rng.choice(["https://cdn.ampproject.org/c/s/", "https://x-com.cdn.ampproject.org/v/s/", "https://www-x-com.cdn.ampproject.org/c/"]) + bare
+    if r < 0.75:
+        return rng.choice(["https://bc.marfeelcache.com/amp/", "bc.marfeel.com/", "http://bc.marfeel.com/", "BC.MARFEELCACHE.COM/amp/"]) + bare
+    if r < 0.85:
+        return "https://www.youtube.com/redirect?event=x&q=" + U.quote(bare, safe="")
+    if r < 0.93:
+        return "http://r.com/login?next=" + U.quote("/" + bare.split("/", 1)[1] if "/" in bare else "/a/b", safe="")
+    return "https://l.facebook.com/l.php?u=" + U.quote(full, safe="") + "&h=AT0"
+
+
+JUNK_PRE = ["", " ", "\t\n", "\x00", " \x00", "\x7f \x01", "\x85", "\x1b "]
+JUNK_SUF = ["", " ", "\n", "\x00", " \x00", "\x00 ", " \x7f\t", "\x1b \x0e", "\x85\x00 "]
+
+
+def wrap_junk(u, rng):
+    """Surrounding whitespace and control characters, in any order (a control character may shield whitespace)."""
+    return rng.choice(JUNK_PRE) + u + rng.choice(JUNK_SUF)
 
 
 def call(f, *a, **k):
